@@ -33,6 +33,10 @@ pub enum CfgCase {
     /// C16 at the command line: key 0 = output_stream (1 = stdout, 2 = combined), key 1 = keep_crlf (1 = false, 2 = true);
     /// layers cli / inline / doc (0 = unset) on a Markdown or Cram document, observed through `scrut test -r json`
     Cli { key: u8, cli: u8, inline: u8, doc: u8, cram: bool },
+    /// C16 at the command line, one environment variable across two test cases of a Markdown document: FOO in the document
+    /// defaults (0 unset, 1 = doc), inline on the second test case (0 unset, 1 = inline) and what the first test case does
+    /// to it (0 nothing, 1 inline FOO=first, 2 `export FOO=shell`, 3 `unset FOO`); the second test case prints FOO
+    EnvAcross { doc: u8, inline2: u8, first: u8 },
     /// C17: a test-case configuration given as value index per key (0 = unset) in the extended alphabets
     RoundTrip { values: [usize; 8], env_b: usize },
     /// C17: document configuration subsets (shell, total_timeout, prepend, append, defaults) value indices
@@ -272,6 +276,15 @@ impl Engine for VcConfig {
         for key in 2..4u8 {
             for w in words(if key == 3 { 4 } else { 3 }, 2) {
                 v.push(CfgCase::Cli { key, cli: w[0] as u8, inline: 0, doc: w[1] as u8, cram: false });
+            }
+        }
+        for doc in 0..2u8 {
+            for inline2 in 0..2u8 {
+                for first in 0..4u8 {
+                    if doc + inline2 > 0 {
+                        v.push(CfgCase::EnvAcross { doc, inline2, first });
+                    }
+                }
             }
         }
         // --- C17
@@ -535,6 +548,37 @@ impl Engine for VcConfig {
                     other => res.findings.push(Finding::new("C16", "command-line-layer-wins", format!("{describe}: [{want_kind}]"), format!("{other:?}; exit status {:?}; stderr {}", run.status, run.stderr_str().lines().last().unwrap_or("")))),
                 }
             }
+            CfgCase::EnvAcross { doc, inline2, first } => {
+                use crate::cli::*;
+                let sb = Sandbox::new();
+                res.nontrivial.push(("C16", key));
+                let mut text = String::new();
+                if *doc > 0 {
+                    text.push_str("---\ndefaults:\n  environment:\n    FOO: doc\n---\n\n");
+                }
+                let (cfg1, cmd1) = match first {
+                    1 => (" {environment: {FOO: first}}", "true"),
+                    2 => ("", "export FOO=shell"),
+                    3 => ("", "unset FOO"),
+                    _ => ("", "true"),
+                };
+                let want = if *inline2 > 0 { "inline" } else { "doc" };
+                let cfg2 = if *inline2 > 0 { " {environment: {FOO: inline}}" } else { "" };
+                text.push_str(&format!("# One\n\n```scrut{cfg1}\n$ {cmd1}\n```\n\n# Two\n\n```scrut{cfg2}\n$ echo \"FOO=${{FOO-unset}}\"\nFOO={want}\n```\n"));
+                sb.write("doc.md", text.as_bytes());
+                let run = run_scrut(&sb, &["test", "--no-color", "-r", "json", "doc.md"], &[], std::time::Duration::from_secs(60));
+                let kinds = run.json_kinds();
+                res.outcome.push(("C16", hash64(&("env-across", doc, inline2, first, kinds.as_ref().ok().cloned()))));
+                match kinds {
+                    Ok(k) if k == vec!["success".to_string(), "success".to_string()] => {}
+                    other => res.findings.push(Finding::new(
+                        "C16",
+                        "environment-variable-of-the-highest-layer-in-effect",
+                        format!("second test case sees FOO={want} (document defaults: {}, inline on the second test case: {}, the first test case: {}): [success, success]", if *doc > 0 { "FOO=doc" } else { "unset" }, if *inline2 > 0 { "FOO=inline" } else { "unset" }, ["does nothing", "has inline FOO=first", "runs `export FOO=shell`", "runs `unset FOO`"][*first as usize]),
+                        format!("{other:?}; exit status {:?}", run.status),
+                    )),
+                }
+            }
             CfgCase::Cli { key: k, cli, inline, doc, cram } => {
                 use crate::cli::*;
                 let sb = Sandbox::new();
@@ -670,6 +714,7 @@ impl Engine for VcConfig {
             CfgCase::DocMerge { doc, cli } => doc.iter().chain(cli.iter()).map(|v| *v as usize).sum(),
             CfgCase::Parse { inline, doc, .. } => inline.iter().chain(doc.iter()).filter(|v| **v != 0).count(),
             CfgCase::Cli { cli, inline, doc, .. } => 1000 + (*cli + *inline + *doc) as usize,
+            CfgCase::EnvAcross { doc, inline2, first } => 1500 + (*doc + *inline2 + *first) as usize,
             CfgCase::RoundTrip { values, env_b } => values.iter().filter(|v| **v != 0).count() * 100 + values.iter().sum::<usize>() + env_b,
             CfgCase::DocRoundTrip { values } => values.iter().filter(|v| **v != 0).count() * 100 + values.iter().sum::<usize>(),
         }
